@@ -68,10 +68,10 @@ def run(ctx):
               "numpy / scipy / pandas calls do not mutate their arguments unless out= / overwrite_*= / inplace= is passed (assumed)",
               "freshness analysis of pvx/frame.py (type-less, rules stated in its docstring)")
     ctx.assume("argument forms / repetition / call order are checked at run time on generated inputs only (bounded)")
-    _frames(ctx, py)
-    _determinism(ctx, py)
-    _schemas(ctx, py)
-    _standin(ctx, py)
+    ctx.guard(_frames, ctx, py)
+    ctx.guard(_determinism, ctx, py)
+    ctx.guard(_schemas, ctx, py)
+    ctx.guard(_standin, ctx, py)
 
 
 # -----------------------------------------------------------------------------------------------
